@@ -134,7 +134,8 @@ func (demuxer *Demuxer) Close() error {
 	}
 
 	demuxer.closed = true
-	demuxer.recvQueue.Signal()
+	// 入列 nil 而不是仅发信号：避免在关闭检查与等待之间丢失唤醒
+	demuxer.recvQueue.Push(nil)
 	return nil
 }
 
